@@ -381,6 +381,51 @@ def main():
 ''')
 
 
+P('same_names', '''
+DATA = {}
+class A:
+    def run(self, x):
+        y = x + 1
+        return y
+class B:
+    def run(self, x):
+        z = x * 2
+        return z
+def run(x):
+    w = x - 1
+    return w
+def main():
+    b, a = B(), A()
+    r = [b.run(1), a.run(2), run(3), b.run(4), a.run(5)]
+    DATA['r'] = r
+    out('same_names', r)
+    return r
+''')
+
+
+P('decorated', '''
+DATA = {}
+def deco(f):
+    def wrapper(*a):
+        r = f(*a)
+        return r
+    return wrapper
+@deco
+def work(x):
+    """A docstring
+    over two lines."""
+    y = (x +
+         1)
+    # a comment line
+    return y
+def main():
+    r = work(1) + work(2)
+    DATA['r'] = r
+    out('decorated', r)
+    return r
+''')
+
+
 P('observed_access', '''
 DATA = {}
 class AuditedSettings(dict):
